@@ -5,6 +5,7 @@ Shared line-protocol codec of the mol2 / xyz drivers (C07, C08, C10).
   number    `+:m:e` / `-:m:e` (the decimal (-1)^s · m · 10^e), `inf`, `-inf`, `nan`;
             in responses a coordinate scaled by a unit factor is an exact rational `p/q`
   molecule  `<name>;<atom>|<atom>…;<bond>|<bond>…`   atom = `e,t,g,<label>,<x>,<y>,<z>,<charge>`   bond = `a1,a2,btype`
+            (read responses append `;<formal charges>;<atom attributes>;<bond attributes>`, attributes `k=v&k=v` in hex)
   frame     `<comment>;<atom>|…`                       atom = `e,<x>,<y>,<z>` (request)  `e,d,<x>,<y>,<z>` (response)
   several molecules / frames are joined by `#`
 -/
@@ -93,6 +94,15 @@ def showMolV (num den : Nat) (m : MolV) : String :=
   let b := m.bonds.map fun b => ",".intercalate [toString b.a1, toString b.a2, toString b.btype]
   hexOfStr m.name ++ ";" ++ "|".intercalate a ++ ";" ++ "|".intercalate b
 
+def showAttrib (d : List (Str × Str)) : String :=
+  if d.isEmpty then "-" else "&".intercalate (d.map fun p => hexOfStr p.1 ++ "=" ++ hexOfStr p.2)
+
+/-- `<mol>;<formal charges>;<atom attribs>;<bond attribs>` -/
+def showMolEx (num den : Nat)
+    (x : Molli.Model.Mol2.MolV × List (Int × List (Str × Str)) × List (List (Str × Str))) : String :=
+  showMolV num den x.1 ++ ";" ++ ",".intercalate (x.2.1.map fun p => toString p.1) ++ ";" ++
+    "|".intercalate (x.2.1.map fun p => showAttrib p.2) ++ ";" ++ "|".intercalate (x.2.2.map showAttrib)
+
 open Molli.Model.Xyz in
 def parseFrame? (s : String) : Option Frame :=
   match s.splitOn ";" with
@@ -136,8 +146,8 @@ def handle (payload : String) : String :=
        (match name? with
         | none => "err:bad-request"
         | some name =>
-          match Molli.Model.Mol2.loadsAll tt bt k name t with
-          | .ok ms => "ok " ++ "#".intercalate (ms.map (showMolV num den))
+          match Molli.Model.Mol2.loadsAllEx tt bt k name t with
+          | .ok ms => "ok " ++ "#".intercalate (ms.map (showMolEx num den))
           | .error e => "err:" ++ mol2ErrName e)
      | _, _, _ => "err:bad-request")
   | ["xwrite", frames] =>
